@@ -824,7 +824,7 @@ func (b *bb) scenarioLimit() {
 	before := b.fails()
 	r := b.r
 	q := uint64(1 + r.Intn(7))
-	pattern := []string{"stall-burst", "prefilled-short", "small", "trickle", "prefilled", "busy-consumer"}[b.cycle("limit", 6)]
+	pattern := []string{"stall-burst", "prefilled-short", "small", "trickle", "prefilled", "busy-consumer", "paused-consumer"}[b.cycle("limit", 7)]
 	short := pattern == "prefilled-short"
 	if short {
 		pattern = "prefilled"
@@ -841,6 +841,14 @@ func (b *bb) scenarioLimit() {
 		q = uint64(4 + r.Intn(4))
 		n = 10 * int(q)
 		inCap = 0
+	case "paused-consumer":
+		// the consumer reads two elements, goes away for eight intervals and then reads as fast as
+		// it can, the producer being always ready: what the discipline wrote meanwhile waits in its
+		// output buffer (capacity 1+cap(input)) and is received at once
+		q = uint64(1 + r.Intn(2))
+		interval = 20 * time.Millisecond
+		inCap = 8
+		n = (inCap + 1) + 8*int(q)
 	case "busy-consumer":
 		// data always available on an unbuffered input, a consumer that is far faster than the
 		// limit but spends a couple of milliseconds on every element, so that it is usually not
@@ -921,6 +929,9 @@ loop:
 			if pattern == "busy-consumer" {
 				time.Sleep(2 * time.Millisecond)
 			}
+			if pattern == "paused-consumer" && len(got) == 2 {
+				time.Sleep(8 * interval)
+			}
 		case <-deadline:
 			b.fail("C12 limit: the output was not closed within 30s")
 			break loop
@@ -952,11 +963,18 @@ loop:
 	// timestamp was delayed: at most Q*(floor(W/I)+2) + cap(output) + 2 in any window W.
 	{
 		W := interval / 2
+		bufferBurst := false
 		allowed := int(q)*(int(W/interval)+2) + (1 + inCap) + 2
 		lo := 0
 		for hi := range recv {
 			for recv[hi].Sub(recv[lo]) > W {
 				lo++
+			}
+			if literal := int(q) * (int(W/interval) + 2); pattern == "paused-consumer" && hi-lo+1 > literal+2 && hi-lo+1 <= allowed && !bufferBurst {
+				// the literal window clause of C04, at the receiving side (finding F2)
+				bufferBurst = true
+				b.fail("C04 limit [output buffer]: after the consumer had paused for %v it received %d elements within %v (elements %d..%d), more than Quantity*(floor(W/Interval)+2) = %d: the discipline limits the rate at which it WRITES to its output, whose buffer (capacity 1+cap(input) = %d) fills while the consumer is away and is then received at once (Q=%d, Interval=%v)",
+					8*interval, hi-lo+1, W, lo, hi, literal, 1+inCap, q, interval)
 			}
 			if hi-lo+1 > allowed {
 				b.fail("C04 limit: %d elements were received within %v (elements %d..%d), more than Quantity*(floor(W/Interval)+2) + output buffer + 2 = %d (Q=%d, Interval=%v, cap(input)=%d, %s)",
